@@ -3,7 +3,7 @@ option attributes exist (ATTR), handler table exhaustive and in the right label 
 from ..core.model import Program
 from ..core.report import CheckContext
 from ..core.resolve import Resolver
-from ..rules import coldef, order
+from ..rules import coldef, order, unitfree
 from .common import run_control, generic_rules
 
 
@@ -18,6 +18,7 @@ def analyse(ctx: CheckContext, p: Program):
     ctx.guard(order.check_record_divisions, ctx, p, r, cone)
     ctx.guard(order.check_subzone_loops, ctx, p, r)
     ctx.guard(coldef.check_column_definitions, ctx, p, r)
+    ctx.guard(unitfree.check_offset_free, ctx, p, r)
 
 
 def run(ctx: CheckContext):
@@ -36,6 +37,9 @@ def run(ctx: CheckContext):
         "so an undeclared attribute fails only when the user does not supply it - which is the default",
     ]
     m = "OpenPinch/main.py"
+    run_control(ctx, "C14/kelvin-offset-in-shared-extractor", analyse, p.root, "OpenPinch/utils/miscellaneous.py",
+                "    elif isinstance(val, ValueWithUnit):\n        return val.value",
+                "    elif isinstance(val, ValueWithUnit):\n        return val.value - 273.15 if val.units == 'K' else val.value", "OFFSET-FREE")
     run_control(ctx, "C14/direct-after-indirect-in-site", analyse, p.root, m,
                 "    compute_direct_integration_targets(zone)\n\n    if len(zone.subzones) > 0:\n        # Targets process level",
                 "    if len(zone.subzones) > 0:\n        # Targets process level", "ORDER")
